@@ -12,14 +12,37 @@ def toRGeom (g : Geom) : Except String RGeom :=
 
 def getValues (j : Json) : Except String Values :=
   match j with
-  | .arr xs => do return .many (← xs.toList.mapM (·.getInt?))
-  | _ => do return .one (← j.getInt?)
+  | .arr xs => do return .many (← xs.toList.mapM getRat)
+  | _ => do return .one (← getRat j)
 
-def gridJ (g : Grid) : Json := arrJ (g.map (fun row => arrJ (row.map intJ)))
+def gridJ (g : Grid) : Json := arrJ (g.map (fun row => arrJ (row.map ratJ)))
 
 def rasterJ (r : Raster) : Json :=
   Json.mkObj [("dims", arrJ [Json.str "time", Json.str "frequency"]), ("time", ratsJ r.time),
               ("freq", ratsJ r.freq), ("grid", gridJ r.grid)]
+
+def cellJ (p : ICell) : Json := natsJ [p.1, p.2]
+def cellsJ (ps : List ICell) : Json := arrJ (ps.map cellJ)
+
+/-- the image as the GeoJSON-like mapping rasterio accepts -/
+def shapeJ (s : IShape) : Json :=
+  let (ty, c) : String × Json := match s with
+    | .point p => ("Point", cellJ p)
+    | .multiPoint ps => ("MultiPoint", cellsJ ps)
+    | .line l => ("LineString", cellsJ l)
+    | .multiLine ls => ("MultiLineString", arrJ (ls.map cellsJ))
+    | .poly rs => ("Polygon", arrJ (rs.map cellsJ))
+    | .multiPoly ps => ("MultiPolygon", arrJ (ps.map (fun rs => arrJ (rs.map cellsJ))))
+  Json.mkObj [("type", Json.str ty), ("coordinates", c)]
+
+def getTemplate (a : Json) : Except String Template := do
+  return { timeFirst := ← fldBool a "time_first", time := ← getRatList (← fld a "time"),
+           freq := ← getRatList (← fld a "freq") }
+
+def fldOptBool (j : Json) (k : String) : Except String (Option Bool) :=
+  match fldOpt j k with
+  | none => .ok none
+  | some v => do return some (← v.getBool?)
 
 def handle (op : String) (a : Json) : Except String Json := do
   match op with
@@ -27,8 +50,25 @@ def handle (op : String) (a : Json) : Except String Json := do
     let t : Template := { timeFirst := ← fldBool a "time_first", time := ← getRatList (← fld a "time"),
                           freq := ← getRatList (← fld a "freq") }
     let geoms ← (← fldArr a "geoms").mapM (fun j => do toRGeom (← getGeom j))
-    return aexceptJ rasterJ (rasterize t geoms (← getValues (← fld a "values")) (← fldInt a "fill")
+    return aexceptJ rasterJ (rasterize t geoms (← getValues (← fld a "values")) (← fldRat a "fill")
       (← fldBool a "all_touched"))
+  | "index_image" =>
+    -- what the model says rasterize hands to rasterio, and the effective all_touched flag
+    let t ← getTemplate a
+    let geoms ← (← fldArr a "geoms").mapM getGeom
+    let at' ← fldOptBool a "all_touched"
+    return Json.mkObj [("shapes", arrJ (geoms.map (fun g => shapeJ (image t g)))),
+                       ("all_touched", Json.bool (at'.getD defaultAllTouched))]
+  | "rasterize_masks" =>
+    -- `rasterizeD` with the rasteriser's answers for the model's images supplied as tables
+    let t ← getTemplate a
+    let tbls ← (← fldArr a "masks").mapM (fun m => do (← getArr m).mapM (fun row => do (← getArr row).mapM (·.getBool?)))
+    let values ← match fldOpt a "values" with
+      | none => pure none
+      | some v => do pure (some (← getValues v))
+    let fill ← fldOptRat a "fill"
+    return aexceptJ rasterJ (rasterizeM t (tbls.map maskOfTable) (← fldNat a "n")
+      (values.getD (.one defaultValue)) (fill.getD defaultFill))
   | "bin_of" =>
     return natJ (binOf (← getRatList (← fld a "coords")) (← fldRat a "v"))
   | "box_rule" =>
